@@ -35,8 +35,10 @@ def check(ctx):
     ctx.run_engine(b_seq(ctx), ['--outdir', '/verif/out', '--depth', '7' if quick else '9', '--deadline', '30' if quick else '400'], label='reg_seq', timeout=900)
     exe = b_conc(ctx)
     if quick:
-        conc(ctx, exe, ['reserve_register_lookup', 'two_by_two_growth', 'reserve3_fresh'], 2, 30, 'conc_b2')
-        conc(ctx, exe, ['reserve_unregister_lookup'], 1, 8, 'conc3_b1')
+        # one invocation per script (the engine's deadline is per invocation): every script completes bound 1 even on a loaded machine
+        for s in ['reserve_register_lookup', 'two_by_two_growth', 'reserve3_fresh']:
+            conc(ctx, exe, [s], 2, 10, 'b2_' + s)
+        conc(ctx, exe, ['reserve_unregister_lookup'], 1, 8, 'b1_reserve_unregister_lookup')
     else:
         conc(ctx, exe, ['reserve_register_lookup', 'two_by_two_growth'], 3, 200, 'conc2_b3')
         conc(ctx, exe, ['reserve3_fresh', 'reserve_unregister_lookup'], 2, 300, 'conc3_b2')
